@@ -10,7 +10,7 @@ EXPLANATION = (
     "attribute access and invocation on the proxy) is dominated by the key gate (no key configured, or presented key == "
     "configured key) and by the expose-pattern gate (no pattern, or re.match anchored at the start of the object name); the "
     "refusal edges answer 403 and return; the keyless index page is reachable only for the empty path and filters its listing "
-    "by the same pattern; redirect/options/405/404 handlers and every path of pyro_app outside GET/POST under pyro/ reach no "
+    "by the same pattern, which the name server applies with match() like the gate; redirect/options/405/404 handlers and every path of pyro_app outside GET/POST under pyro/ reach no "
     "sink; the member that is invoked is the second group of the path match, the keyword arguments are the parsed query "
     "parameters from which exactly $key is removed whenever a key is configured; one invocation per request, none for $meta; "
     "status 500 on the exception flag and in the catch-all, 200 otherwise; the key is compared as UTF-8 bytes, header before "
